@@ -50,10 +50,13 @@ def _occurrence_parents(t, target, parent=None, out=None):
     return out
 
 
+_COUNTERS = set()
+
+
 def _threshold(cond):
     """A magnitude test: abs(...) or an ordering comparison against a non-zero numeric constant
     (equality / zero tests are exact case splits and are decided algebraically by C10)."""
-    counters = {("field0", "N")}
+    counters = {("field0", "N")} | set(_COUNTERS)
     for t in ir.subterms(cond):
         if t[0] == "fn" and t[1] == "abs":
             return True
@@ -78,8 +81,12 @@ def check(run):
     run.analysed_fn(fq)
     _, fn = prog.find_method(W, "update")
     v = ("param", [a.arg for a in fn.args.args][1])
-    mean0 = ("field0", "tracked_value")
-    acc_fields = [f for f, t in s.fields.items() if f not in ("N", "tracked_value") and v in ir.subterms(t)]
+    from .common import welford_roles
+    wr = welford_roles(prog, W)
+    _COUNTERS.clear()
+    _COUNTERS.add(("field0", wr["N"]))
+    mean0 = ("field0", wr["tracked_value"])
+    acc_fields = [f for f, t in s.fields.items() if f not in (wr["N"], wr["tracked_value"]) and v in ir.subterms(t)]
     run.need(acc_fields, "WelfordTracker.update has no second-moment accumulator depending on the value")
     for f in acc_fields:
         t = s.fields[f]
@@ -108,7 +115,7 @@ def check(run):
                 continue
             sm = prog.summarise(cls, m)
             run.analysed_fn(f"{cls.name}.{m}")
-            terms = [sm.ret] + [t for f, t in sm.fields.items() if f != "N"]
+            terms = [sm.ret] + [t for f, t in sm.fields.items() if f not in ("N", wr["N"])]
             bad = None
             for t in terms:
                 for x in ir.subterms(t):
@@ -126,7 +133,7 @@ def check(run):
     # ---- DENOM ----------------------------------------------------------------------------------------
     from .boolalg import holds
     from .algebra import arms
-    n0 = ("field0", "N")
+    n0 = ("field0", wr["N"])
     for cls, m in ((W, "update"), (W, "var")):
         sm = prog.summarise(cls, m)
         okd, seen = True, 0
